@@ -185,7 +185,8 @@ def emit_bare(o, n, path, extra):
     elif k == "app":
         child(0, 7)
         for i in range(1, len(a)):
-            child(i, 6.5)
+            # arguments are terminals; a URI template would swallow a following URI argument
+            child(i, 8 if a[i]["k"] == "uri" else 7)
     elif k == "rec":
         tk("rec")
         b = o.token(n["s"])
